@@ -46,6 +46,7 @@ var srcTargets = []srcTarget{
 	{Group: "Lists", Recv: "CIDRList", Name: "Add", Only: "V2"},
 	{Group: "Lists", Recv: "CIDRList", Name: "Remove", Only: "V2"},
 	{Group: "Lists", Recv: "CIDRList", Name: "Set", Only: "V2"},
+	{Group: "Lists", Recv: "CIDRList", Name: "UnmarshalJSON", Only: "V2"},
 	{Group: "Revocation", Recv: "RevocationList", Name: "Revoke"},
 	{Group: "Revocation", Recv: "RevocationList", Name: "ClearRevocation"},
 	{Group: "Revocation", Recv: "RevocationList", Name: "allRevoked"},
@@ -1784,6 +1785,9 @@ func (t *tr) block0(stmts []ast.Stmt, c sctx, ind string) string {
 					val = t.expr(vs.Values[i])
 				} else {
 					val = t.zero(id, t.info.Defs[id].Type())
+					if ct := t.coqType(id, t.info.Defs[id].Type()); val == "[]" && strings.HasPrefix(ct, "(list ") {
+						val = "(@nil " + strings.TrimSuffix(strings.TrimPrefix(ct, "(list "), ")") + ")" // (typed: the variable may never be read)
+					}
 					if _, isStruct := t.info.Defs[id].Type().Underlying().(*types.Struct); isStruct && isAbstractType(t.info.Defs[id].Type()) {
 						// var x T for an opaque struct: a fresh value of the function's own (stores into it rebind it)
 						if t.freshLocal == nil {
@@ -2055,6 +2059,15 @@ func (t *tr) block0(stmts []ast.Stmt, c sctx, ind string) string {
 					if id, ok := f.X.(*ast.Ident); ok {
 						if pn, ok := t.info.Uses[id].(*types.PkgName); ok && pn.Imported().Path() == "encoding/json" {
 							if u, ok := call.Args[1].(*ast.UnaryExpr); ok && u.Op == token.AND {
+								if vid, ok := u.X.(*ast.Ident); ok && t.names[t.info.Uses[vid]] != "" && !isAbstractType(t.info.Uses[vid].Type()) {
+									// into a local holding data (a text, a list of texts): what the text decodes to as that type, an unknown
+									// function of the text
+									vty := t.coqType(vid, t.info.Uses[vid].Type())
+									vn := t.names[t.info.Uses[vid]]
+									fn := t.observe("go_json_Unmarshal_as_"+strings.Trim(strings.NewReplacer("(", "", ")", "", " ", "_", "*", "x").Replace(vty), "_"), "(string -> ("+vty+" * (option string)))")
+									en := t.lhsName(x.Lhs[0], x.Tok == token.DEFINE)
+									return "let '(" + vn + ", " + en + ") := (" + fn + " " + t.expr(call.Args[0]) + ") in" + nl + t.block(rest, c, ind)
+								}
 								if vid, ok := u.X.(*ast.Ident); ok && t.names[t.info.Uses[vid]] != "" && isAbstractType(t.info.Uses[vid].Type()) {
 									vn := t.names[t.info.Uses[vid]]
 									if t.storedLocal[t.info.Uses[vid]] {
@@ -2958,7 +2971,23 @@ func translateFunc(pkg *packages.Package, fd *ast.FuncDecl, coqName string, know
 	if fd.Type.Results != nil {
 		for _, r := range fd.Type.Results.List {
 			if len(r.Names) > 0 {
-				t.fail(fd, "named results")
+				// a named result is accepted when the body never uses the name (every return spells its value out)
+				for _, rn := range r.Names {
+					ro := t.info.Defs[rn]
+					used := false
+					ast.Inspect(fd.Body, func(m ast.Node) bool {
+						if id, ok := m.(*ast.Ident); ok && t.info.Uses[id] == ro {
+							used = true
+						}
+						if rs, ok := m.(*ast.ReturnStmt); ok && len(rs.Results) == 0 {
+							used = true
+						}
+						return true
+					})
+					if used {
+						t.fail(fd, "named results")
+					}
+				}
 			}
 			t.resTys = append(t.resTys, t.coqType(fd, t.info.TypeOf(r.Type)))
 		}
